@@ -1,5 +1,6 @@
 """C09 -- end to end through the real client and server, across client re-creation and server restart."""
 import asyncio
+import os
 import copy
 import itertools
 import pickle
@@ -54,7 +55,7 @@ class C09(P.Property):
     probe_names = ["scheme_" + s for s in fe.SCHEMES] + ["recreate_before_" + w for w in WORKFLOW[1:]] + [
         "recreate_before_first_search", "recreate_between_searches", "kept_object_whole_workflow", "server_restart_before_first_search",
         "server_restart_between_searches", "recreate_inside_cleanup_window", "absent_keyword", "near_miss_keyword", "nondefault_config",
-        "stall_over_60s", "decoy_service", "decoy_other_config", "idle_connection", "op_failed_under_fault", "server_read_error", "client_object_kept_after_fault", "blocked_by_other_connection"]
+        "stall_over_60s", "decoy_service", "decoy_other_config", "idle_connection", "op_failed_under_fault", "server_read_error", "client_object_kept_after_fault", "blocked_by_other_connection", "real_restart_new_interpreter"]
 
     def setup(self):
         world.setup_frontend()
@@ -142,6 +143,7 @@ class C09(P.Property):
             knobs["stall"] = {"search": rng.randrange(len(steps)), "secs": rng.choice([0.5, 5, 70])}
         elif rng.random() < 0.06:
             knobs["read_fault"] = {"search": rng.randrange(len(steps))}
+        knobs["real_restart"] = rng.random() < 0.03
         knobs["blocker"] = None
         if knobs["stall"] is None and knobs["read_fault"] is None and rng.random() < 0.06:
             knobs["blocker"] = {"search": rng.randrange(len(steps)), "hold": rng.choice([5, 30, 70, 70])}
@@ -280,6 +282,9 @@ class C09(P.Property):
                     return
         if kept_all:
             probes["kept_object_whole_workflow"] = 1
+        if knobs.get("real_restart"):
+            await self._real_restart(run, plan, sid, host, out, viol, probes)
+            return
         first = True
         if knobs["restart_after_upload"]:
             await self._restart(run, host, out)
@@ -385,6 +390,38 @@ class C09(P.Property):
         await host.drop()
         await asyncio.sleep(3)
 
+    async def _real_restart(self, run, plan, sid, host, out, viol, probes):
+        """the server *program* is restarted for real: the rest of the run (boot, client from disk, searches) happens in a second
+        interpreter with another PYTHONHASHSEED on the same scratch directory (sim/ssesim/phase2.py)"""
+        import json
+        import subprocess
+        import sys
+        import tempfile
+        await host.drop()
+        await asyncio.sleep(plan["knobs"]["gaps"][4])
+        run.kill_server()
+        out["restarts"] += 1
+        out["recreations"] += 1
+        probes["real_restart_new_interpreter"] = 1
+        run.sim.count("real_restart")
+        job = dict(plan=plan, sid=sid, seed=core.h64(plan["seed"], "phase2") & 0x7FFFFFFF)
+        fd, jpath = tempfile.mkstemp(prefix="ssesim-phase2-", suffix=".json", dir=world.scratch_root())
+        with os.fdopen(fd, "w") as f:
+            json.dump(job, f)
+        env = dict(os.environ, SSESIM_HOME=world.scratch_root(), HOME=world.scratch_root(),
+                   PYTHONHASHSEED=str(1 + core.h64(plan["seed"], "hashseed") % 1000003))
+        rp = subprocess.run([sys.executable, "-u", "-m", "ssesim.phase2", jpath], env=env, capture_output=True, text=True, timeout=300)
+        os.unlink(jpath)
+        line = next((ln for ln in rp.stdout.splitlines() if ln.startswith("PHASE2-RESULT ")), None)
+        if line is None:
+            raise RuntimeError(f"harness: post-restart interpreter failed (exit {rp.returncode}): {rp.stderr[-800:]}")
+        r2 = json.loads(line[len("PHASE2-RESULT "):])
+        out["answered"] += len(r2["obs"])
+        out["obs"].extend(tuple(o) for o in r2["obs"])
+        out["obs"].append(("phase2-digest", r2["digest"]))
+        for v in r2["violations"]:
+            viol.append(V(v["clause"], v["kind"], v["detail"], site=v.get("site")))
+
     async def _decoy(self, run, scheme, knobs, probes):
         """another service of the same scheme with a different valid configuration (the first one of the grid that the scheme
         accepts) and database, taken through the whole workflow and searched once on the same server process before the
@@ -431,7 +468,7 @@ class C09(P.Property):
     def simplifications(self, plan):
         k = plan["knobs"]
         for key, val in (("skew", 1.0), ("bufsize", 8192), ("net", dict(lo=0.01, hi=0.01)), ("stall", None), ("restart_after_upload", False),
-                         ("recreate", [False] * 5), ("gaps", [0] * 5), ("cfg_index", 0), ("decoy", False), ("sse2_spare", 0), ("read_fault", None), ("blocker", None)):
+                         ("recreate", [False] * 5), ("gaps", [0] * 5), ("cfg_index", 0), ("decoy", False), ("sse2_spare", 0), ("read_fault", None), ("blocker", None), ("real_restart", False)):
             if k.get(key) != val:
                 yield dict(plan, knobs=dict(k, **{key: val}))
         db = k["db"]
